@@ -334,7 +334,8 @@ def run_case(case, exec_seed=None, exec_tape=None):
         probes["output_names"] = 1
         try:
             with C.new_sim(Tape(recorded=[]), preempt=0.0):
-                build_pipeline(w_full)  # the tree refuses to construct some valid pipelines (C01's business)
+                # the tree refuses to construct some valid (sub-)pipelines (C01's business): not a C06 question
+                build_pipeline(w_full).subpipeline(set(build_inputs(w)), output_names_arg(w_full, case["output_fns"]))
         except Exception:  # noqa: BLE001
             out["discarded"] = True
             out["exec_tape"] = []
